@@ -134,8 +134,12 @@ class Program:
                     fi = FuncInfo(qual, ch.name, m, ch, cls, parent)
                     self.functions[qual] = fi
                     if cls is not None:
-                        # property setters etc. would overwrite; keep the first (getter)
-                        cls.methods.setdefault(ch.name, fi)
+                        decos = [ast.unparse(d) for d in ch.decorator_list]
+                        if "overload" in decos or "typing.overload" in decos:
+                            pass  # typing stub, not the implementation
+                        else:
+                            # property setters etc. would overwrite; keep the first (getter)
+                            cls.methods.setdefault(ch.name, fi)
                     visit(ch, None, fi, f"{prefix}{ch.name}.<locals>.")
                 else:
                     visit(ch, cls, parent, prefix)
